@@ -111,13 +111,14 @@ class State:
         self.guards = []
         self.path = []
         self.notified = False  # used by monitor front end
+        self.mon = {}  # front-end specific ghost state (terms / mutable model objects)
 
     def clone(self):
         n = State()
         memo = {}
 
         def cp(v):
-            if isinstance(v, (MList, MSet)):
+            if isinstance(v, (MList, MSet, CounterVal, LockVal, MDict)):
                 if id(v) not in memo:
                     memo[id(v)] = copy.copy(v)
                 return memo[id(v)]
@@ -139,6 +140,7 @@ class State:
         n.guards = list(self.guards)
         n.path = list(self.path)
         n.notified = self.notified
+        n.mon = {k: (dict(v) if isinstance(v, dict) else cp(v)) for k, v in self.mon.items()}
         return n
 
     def assume(self, f):
@@ -520,6 +522,10 @@ class Exec:
             raise OutOfSubset(f'assignment target {type(target).__name__}')
 
     def unpack(self, v, n, st, node):
+        if isinstance(v, OptVal):
+            # unpacking dict.get() result: only reached where it is not None
+            self.safety(st, v.present, 'unpacking a value that may be None', node)
+            v = v.value
         if isinstance(v, PyTuple):
             if len(v.items) != n:
                 raise OutOfSubset('tuple arity mismatch')
@@ -549,6 +555,13 @@ class Exec:
             n = n.value
         base = self.eval(n, st)
         chain.reverse()
+        if isinstance(base, CounterVal) and len(chain) == 1:
+            k = self.to_term(self.eval(chain[0], st), base.kty, st)
+            base.set(k, self.to_term(v, TInt, st))
+            return
+        if isinstance(base, MDict) and len(chain) == 1:
+            base.setitem(self, st, self.eval(chain[0], st), v)
+            return
         if isinstance(base, MSet) or not isinstance(base, MList):
             raise OutOfSubset(f'subscript store on {type(base).__name__} line {target.lineno}')
         ops = self.ops(st)
@@ -660,6 +673,17 @@ class Exec:
             return {h.type.attr}
         return None
 
+    def st_With(self, s, st):
+        """`with lock:` on a modelled lock object; other context managers via the 'with' intrinsic"""
+        if len(s.items) != 1:
+            raise OutOfSubset('with several items')
+        item = s.items[0]
+        cm = self.eval(item.context_expr, st)
+        h = self.ms.intrinsics.get('with')
+        if h is None:
+            raise OutOfSubset(f'with statement at line {s.lineno}')
+        return h(self, st, cm, item, s)
+
     def st_Break(self, s, st):
         return [(st, ('break',))]
 
@@ -679,6 +703,16 @@ class Exec:
         return [(st, ('next',))]
 
     def delete_target(self, t, st):
+        if isinstance(t, ast.Subscript):
+            base = self.eval(t.value, st)
+            if isinstance(base, CounterVal):
+                k = self.to_term(self.eval(t.slice, st), base.kty, st)
+                self.safety(st, base.has(k), f'del of a present key at line {t.lineno}', t)
+                base.delete(k)
+                return
+            if isinstance(base, MDict):
+                base.delitem(self, st, self.eval(t.slice, st), t)
+                return
         raise OutOfSubset(f'del of {type(t).__name__} at line {t.lineno}')
 
     # loops ------------------------------------------------------------------------------------
@@ -973,6 +1007,8 @@ class Exec:
                 return z3.BoolVal(True)
         if isinstance(v, CounterVal):
             return v.nonempty()
+        if isinstance(v, OptVal):
+            return v.present
         if isinstance(v, SObj):
             return z3.BoolVal(True)
         raise OutOfSubset(f'truthiness of {v}')
@@ -1061,6 +1097,17 @@ class Exec:
         if all(isinstance(v, Val) and v.ty is TBool for v in vals):
             ts = [v.t for v in vals]
             return Val(TBool, z3.And(*ts) if is_and else z3.Or(*ts))
+        tys = set()
+        for v in vals:
+            try:
+                tys.add(self.type_of(v).key())
+            except OutOfSubset:
+                tys.add(type(v).__name__)
+        if len(tys) > 1:
+            # operands of different types: only the truth value is modelled (the result of such
+            # an expression is used as a condition in the code under contract)
+            ts = [self.truthy(v, st) for v in vals]
+            return Val(TBool, z3.And(*ts) if is_and else z3.Or(*ts))
         # value-returning form: a and b -> b if a else a
         res = vals[-1]
         for v in reversed(vals[:-1]):
@@ -1136,6 +1183,10 @@ class Exec:
                 return h(self, st, [a, b], {}, node)
             raise OutOfSubset(f'numeric op {type(op).__name__} at line {node.lineno}')
         ops = self.ops(st)
+        if isinstance(op, ast.Sub) and isinstance(a, CounterVal) and isinstance(b, CounterVal):
+            r, fact = a.minus(b)
+            st.facts.add(fact)
+            return r
         if isinstance(op, ast.Add):
             if isinstance(a, EmptyList):
                 return b if spec else self.copy_list(b, st)
@@ -1207,6 +1258,11 @@ class Exec:
                     return z3.BoolVal(False)
                 raise OutOfSubset('== [] on non-sequence')
             return s.ty.f_len(s.t) == 0
+        if isinstance(a, OptVal) or isinstance(b, OptVal):
+            o, other = (a, b) if isinstance(a, OptVal) else (b, a)
+            if isinstance(other, Val) and other.ty is TNone:
+                return z3.Not(o.present)
+            raise OutOfSubset('== on optional value other than None')
         if isinstance(a, PyTuple) and isinstance(b, PyTuple):
             if len(a.items) != len(b.items):
                 return z3.BoolVal(False)
@@ -1256,8 +1312,12 @@ class Exec:
                 return b.t == b.ty.some(a.t)
             # values of different static types are never equal (str vs int, ...)
             return z3.BoolVal(False)
-        if isinstance(a, CounterVal) and isinstance(b, CounterVal):
-            return a.t == b.t
+        if isinstance(a, CounterLen) or isinstance(b, CounterLen):
+            cl, other = (a, b) if isinstance(a, CounterLen) else (b, a)
+            n = z3.simplify(self.to_term(other, TInt, st))
+            if z3.is_int_value(n):
+                return cl.c.len_is(n.as_long())
+            raise OutOfSubset('len(Counter) compared with a symbolic value')
         if isinstance(a, MSet) and isinstance(b, MSet):
             return a.t == b.t
         raise OutOfSubset(f'== between {a} and {b}')
@@ -1303,8 +1363,7 @@ class Exec:
         if isinstance(container, MSet):
             return z3.Select(container.t, self.to_term(item, container.elem, st))
         if isinstance(container, CounterVal):
-            return container.get(self.to_term(item, container.kty, st)) != 0 \
-                if container.pruned else z3.Select(container.keys, self.to_term(item, container.kty, st))
+            return container.has(self.to_term(item, container.kty, st))
         s = self.as_seq(container, st)
         if s is not None:
             k = z3.Int(sym.fresh_name('m'))
@@ -1342,6 +1401,8 @@ class Exec:
             return self.wrap(base.ty.elem, base.ty.f_at(base.t, it), st)
         if isinstance(base, CounterVal):
             return Val(TInt, base.get(self.to_term(idx, base.kty, st)))
+        if isinstance(base, MDict):
+            return base.getitem(self, st, idx, n, spec)
         h = self.ms.intrinsics.get('getitem')
         if h:
             r = h(self, st, [base, idx], {}, n)
@@ -1380,6 +1441,11 @@ class Exec:
         if isinstance(base, ModuleRef):
             return ModuleRef(base.name + '.' + n.attr)
         return BoundMethod(base, n.attr)
+
+    def ex_Dict(self, n, st, spec):
+        if any(k is None for k in n.keys):
+            raise OutOfSubset('dict unpacking')
+        return PyDict([(self.eval(k, st, spec), self.eval(v, st, spec)) for k, v in zip(n.keys, n.values)])
 
     def ex_Lambda(self, n, st, spec):
         return Closure(n, st.env)
@@ -1679,8 +1745,10 @@ class Exec:
                                     z3.ForAll([q], z3.Implies(z3.And(0 <= q, q < k),
                                                               base.ty.f_at(base.t, q) != x))))
                 return Val(TInt, k)
-        if isinstance(base, CounterVal):
-            return base.method(self, name, args, st, n)
+        if isinstance(base, MDict) and name == 'get' and len(args) == 1:
+            k = self.to_term(args[0], base.kty, st)
+            v = base.value(self, st, k)
+            return OptVal(base.has(k), v)
         raise OutOfSubset(f'method {name} on {base} at line {n.lineno}')
 
     def ex_Starred(self, n, st, spec):
@@ -1699,6 +1767,13 @@ class _Macro(ast.NodeTransformer):
         return node
 
 
+class OptVal:
+    """Python-level optional: `present` condition and the value when present (dict.get)"""
+
+    def __init__(self, present, value):
+        self.present, self.value = present, value
+
+
 class EmptyList:
     """`[]` literal whose element type is not yet known"""
 
@@ -1714,22 +1789,123 @@ class BoundMethod:
 
 
 class CounterVal:
-    """collections.Counter[K] as an Array K -> Int.
-    pruned=True models the discipline 'zero-count keys are always deleted', under which
-    truthiness/len are functions of the counts alone; the front end that uses it checks the
-    discipline (monitor)."""
+    """collections.Counter[K] (mutable): counts Array K -> Int and key set Array K -> Bool.
+    Reading a missing key gives 0 and does not insert (Counter.__missing__).
+    Representation invariant maintained by every operation here and assumed of havoc'd
+    counters by the front end: a key that is absent has count 0 (so get(k) == cnt[k])."""
 
-    pruned = True
+    def __init__(self, kty, cnt, keys):
+        self.kty, self.cnt, self.keys = kty, cnt, keys
 
-    def __init__(self, kty, t):
-        self.kty, self.t = kty, t
+    @staticmethod
+    def fresh(kty, prefix='ctr'):
+        return CounterVal(kty, z3.Const(sym.fresh_name(prefix + '_cnt'), z3.ArraySort(kty.sort(), z3.IntSort())),
+                          z3.Const(sym.fresh_name(prefix + '_keys'), z3.ArraySort(kty.sort(), z3.BoolSort())))
+
+    @staticmethod
+    def empty(kty):
+        return CounterVal(kty, z3.K(kty.sort(), z3.IntVal(0)), z3.K(kty.sort(), z3.BoolVal(False)))
 
     def get(self, k):
-        return z3.Select(self.t, k)
+        return z3.Select(self.cnt, k)
+
+    def set(self, k, v):
+        self.cnt = z3.Store(self.cnt, k, v)
+        self.keys = z3.Store(self.keys, k, z3.BoolVal(True))
+
+    def delete(self, k):
+        self.keys = z3.Store(self.keys, k, z3.BoolVal(False))
+        self.cnt = z3.Store(self.cnt, k, z3.IntVal(0))
+
+    def has(self, k):
+        return z3.Select(self.keys, k)
 
     def nonempty(self):
         k = z3.Const(sym.fresh_name('ck'), self.kty.sort())
-        return z3.Exists([k], z3.Select(self.t, k) != 0)
+        return z3.Exists([k], z3.Select(self.keys, k))
+
+    def len_is(self, n):
+        """len(counter) == n for n in {0, 1}"""
+        k = z3.Const(sym.fresh_name('ck'), self.kty.sort())
+        u = z3.Const(sym.fresh_name('cu'), self.kty.sort())
+        if n == 0:
+            return z3.Not(z3.Exists([k], z3.Select(self.keys, k)))
+        if n == 1:
+            return z3.Exists([k], z3.And(z3.Select(self.keys, k),
+                                         z3.ForAll([u], z3.Implies(z3.Select(self.keys, u), u == k))))
+        raise OutOfSubset('len(Counter) compared with a constant other than 0/1')
+
+    def minus(self, other):
+        """Counter subtraction: keeps only positive differences"""
+        r = CounterVal.fresh(self.kty, 'cdiff')
+        k = z3.Const(sym.fresh_name('ck'), self.kty.sort())
+        d = self.get(k) - other.get(k)
+        fact = z3.ForAll([k], z3.And(z3.Select(r.keys, k) == (d > 0),
+                                     z3.Select(r.cnt, k) == z3.If(d > 0, d, 0)),
+                         patterns=[z3.Select(r.keys, k), z3.Select(self.cnt, k)])
+        return r, fact
+
+    def copy(self):
+        return CounterVal(self.kty, self.cnt, self.keys)
+
+
+class MDict:
+    """dict K -> record of values: key set Array K -> Bool plus one Array K -> T per component"""
+
+    def __init__(self, kty, comps, keys, arrs):
+        self.kty, self.comps, self.keys, self.arrs = kty, comps, keys, list(arrs)
+
+    @staticmethod
+    def fresh(kty, comps, prefix='d'):
+        return MDict(kty, comps,
+                     z3.Const(sym.fresh_name(prefix + '_keys'), z3.ArraySort(kty.sort(), z3.BoolSort())),
+                     [z3.Const(sym.fresh_name(f'{prefix}_v{i}'), z3.ArraySort(kty.sort(), c.sort()))
+                      for i, c in enumerate(comps)])
+
+    def has(self, k):
+        return z3.Select(self.keys, k)
+
+    def getitem(self, ex, st, idx, node, spec=False):
+        k = ex.to_term(idx, self.kty, st)
+        ex.safety(st, self.has(k), f'key present at line {getattr(node, "lineno", 0)}', node, spec)
+        return self.value(ex, st, k)
+
+    def value(self, ex, st, k):
+        vals = [ex.wrap(c, z3.Select(a, k), st) for c, a in zip(self.comps, self.arrs)]
+        return vals[0] if len(vals) == 1 else PyTuple(vals)
+
+    def setitem(self, ex, st, idx, v):
+        k = ex.to_term(idx, self.kty, st)
+        vals = [v] if len(self.comps) == 1 else ex.unpack(v, len(self.comps), st, None)
+        self.keys = z3.Store(self.keys, k, z3.BoolVal(True))
+        self.arrs = [z3.Store(a, k, ex.to_term(x, c, st)) for a, x, c in zip(self.arrs, vals, self.comps)]
+
+    def delitem(self, ex, st, idx, node):
+        k = ex.to_term(idx, self.kty, st)
+        ex.safety(st, self.has(k), f'del of a present key at line {node.lineno}', node)
+        self.keys = z3.Store(self.keys, k, z3.BoolVal(False))
+
+
+class CounterLen:
+    def __init__(self, c):
+        self.c = c
+
+
+class PyDict:
+    """dict display {k: v, ...} with statically known entries"""
+
+    def __init__(self, items):
+        self.items = items
+
+
+class LockVal:
+    """threading.Lock / RLock / Condition(RLock()) ghost state: owner thread (0 = free), depth"""
+
+    def __init__(self, owner, depth, reentrant, name='lock'):
+        self.owner, self.depth, self.reentrant, self.name = owner, depth, reentrant, name
+
+    def copy(self):
+        return LockVal(self.owner, self.depth, self.reentrant, self.name)
 
 
 def fold_instantiate(fold, ops, how, r, *args):
@@ -1765,8 +1941,22 @@ _execs = {}
 def get_exec(repo, ms, registry):
     k = (repo, ms.path)
     if k not in _execs:
-        _execs[k] = Exec(repo, ms, registry)
+        if getattr(ms, 'exec_class', None) == 'monitor':
+            from .monitor import MonitorExec
+            _execs[k] = MonitorExec(repo, ms, registry)
+        else:
+            _execs[k] = Exec(repo, ms, registry)
     return _execs[k]
+
+
+def verify_contract(ex, c):
+    """dispatch: ordinary function contract or monitor method"""
+    mon = getattr(c, 'monitor', None)
+    if mon:
+        import importlib
+        mod = importlib.import_module(c.sidecar_module)
+        return ex.verify_method(c, mod.MONITORS[mon])
+    return ex.verify(c)
 
 
 EXC_NAMES = {'Exception', 'ValueError', 'KeyError', 'IndexError', 'TypeError', 'StopIteration',
@@ -1793,6 +1983,8 @@ def _b_len(ex, st, args, kwargs, n, spec):
         return Val(TInt, t)
     if isinstance(v, IterSrc):
         return Val(TInt, v.n)
+    if isinstance(v, CounterVal):
+        return CounterLen(v)
     h = ex.ms.intrinsics.get('len')
     if h:
         return h(ex, st, args, kwargs, n)
